@@ -699,10 +699,13 @@ def main(argv):
                 harness_errors.append('violation did not replay in a fresh interpreter (%s): %s' % (path, out[-300:]))
                 continue
         new.append((path, '%s | %s' % (mv['text'].replace('\n', ' '), mv['detail'])))
+    # the same check, other run indices, under other interpreter configurations (python -O)
+    slices = [] if args.digests else core.run_config_slices(PROP, args.tier, max(8, cfg['runs'] // 10), new, known_hits, harness_errors)
     wall = time.monotonic() - t0
     runs = stats.get('runs', 0)
     both = sum(1 for v in shapes.values() if len(v) == 2)
     coverage = {
+        'interpreter_configuration_slices': slices,
         'evaluations': int(stats.get('prefixes_checked', 0)),
         'distinct_nontrivial': len(shapes),
         'rule': 'cases = (property, history prefix) pairs on which the monitor compared the property with its canonical form under both re-activation readings; '
